@@ -256,6 +256,15 @@ def evaluate(pid, scns, bins, driver_ok):
                 continue
             if oi != om:
                 dis.append((s, first_diff(oi, om)))
+            elif pid == "C15":
+                try:
+                    extra = props.cross_C15(ai, am)
+                except Exception as e:
+                    log("cross_C15 error on %s: %r" % (s.sid, e))
+                    extra = []
+                if extra:
+                    stats["bound_checked"] = stats.get("bound_checked", 0)
+                    viol.append((s, extra))
     return viol, dis, stats, ti, tm
 
 
@@ -479,6 +488,7 @@ def main():
             "samples": [sample_of(s) for s in scns[:2] + scns[-2:]],
             "lean_problems": ls["problems"],
             "recorded_findings_reproduced": len(viol) - len(fresh),
+            "liveness_bound_cross_check": (props.CROSS_C15 if pid == "C15" else None),
         },
         "assumptions": families.ASSUMPTIONS.get(pid, []) + ["domain restrictions of DESIGN.md 2.3 (supported descriptors, handler contract, no HOLD from event handlers, flags change between lines)"],
         "wall_s": round(wall, 2),
